@@ -57,7 +57,7 @@ func (d *Document) FrontMatter() map[string]any {
 func New(contentFS fs.FS) *Markdown {
 	var tplFS fs.FS
 	if contentFS != nil {
-		tplFS = vuego.NewOverlayFS(contentFS, Templates())
+		tplFS = vuego.NewOverlayFS(noDefaultLayout{contentFS}, Templates())
 	} else {
 		tplFS = Templates()
 	}
@@ -70,6 +70,19 @@ func New(contentFS fs.FS) *Markdown {
 		parser:         md.Parser(),
 		postProcessors: make(map[string]PostProcessor),
 	}
+}
+
+// noDefaultLayout hides the site's implicit page layout (layouts/base.vuego) from the engine
+// that renders the element templates: those are fragments (a heading, an emphasis), and a
+// content directory shared with vuego pages must not get its page layout wrapped around each.
+type noDefaultLayout struct{ fs.FS }
+
+// Open implements fs.FS.
+func (f noDefaultLayout) Open(name string) (fs.File, error) {
+	if name == "layouts/base.vuego" {
+		return nil, &fs.PathError{Op: "open", Path: name, Err: fs.ErrNotExist}
+	}
+	return f.FS.Open(name)
 }
 
 // PostProcess registers a post-processor for a block type (e.g. "paragraph", "heading").
